@@ -121,6 +121,7 @@ impl GenerationPass for AvailableValuePass {
         let mut visited = HashSet::new();
         while changed {
             changed = false;
+            let visited_before = visited.len();
             for node in cfg.iter() {
                 // A node whose predecessors have all not been visited yet has
                 // nothing to take the AND of. It waits for a later sweep:
@@ -243,6 +244,10 @@ impl GenerationPass for AvailableValuePass {
                 // Add node to visited
                 visited.insert(Rc::clone(&node));
             }
+            // Nodes visited for the first time in this sweep were ignored by
+            // the nodes processed before them: those need another sweep, even
+            // if the values stored from an earlier run did not change.
+            changed |= visited.len() != visited_before;
         }
         Ok(())
     }
